@@ -12,6 +12,7 @@ import YkProofs.Reload
 import YkProofs.ReloadMark
 import YkProofs.ReloadParts
 import YkProofs.ReloadPlace
+import YkProofs.ReloadFlip
 namespace Yk.C16
 open Yk Yk.Reload
 
@@ -257,6 +258,29 @@ theorem dropped_hierarchy_drains_at_every_level (t t' : Tree) (conf : List QC) (
     ∀ x q, t.find x = some q → q.managed = true → configured conf x = false → t'.find x = some q.mark :=
   updateTreeRec_dropped t t' conf h hwf hcp htop hupd
 
+/-- Spelled out: after updateQueues every (managed, not stopped) queue of the OLD tree that the new configuration does not
+    name is still there and Draining — nothing stays Active outside the configuration. (Removal is the cleaner's business
+    and only happens to empty queues: `removed_only_when_empty`.) -/
+theorem old_queue_not_in_configuration_is_draining (t t' : Tree) (conf : List QC) (h : TreeOK t) (hwf : confWF conf = true)
+    (hcp : confPaths conf = true) (htop : ∀ q ∈ t, q.parent = "" → configured conf q.path = true)
+    (hupd : updateTreeRec t conf = (t', none)) :
+    ∀ x q, t.find x = some q → q.managed = true → configured conf x = false → ¬ q.state = .stopped →
+      ∃ q', t'.find x = some q' ∧ q'.state = .draining ∧ q'.runtime = q.runtime := by
+  intro x q hq hm hc hs
+  refine ⟨q.mark, updateTreeRec_dropped t t' conf h hwf hcp htop hupd x q hq hm hc, ?_, rfl⟩
+  cases hst : q.state <;> simp_all [RQ.mark, QState.remove]
+
+/-- A parent that becomes a leaf: when the configuration has only a leaf-type entry at path p (the queue was a parent
+    with children and is now configured without any, parent flag not set), NO entry of the configuration sits below p, so
+    every managed child the old tree has below p takes the Remove event in the recursion of updateQueues into p with the
+    empty child list — whether it holds applications or not. -/
+theorem children_of_parent_turned_leaf_drain (t t' : Tree) (conf : List QC) (h : TreeOK t) (hwf : confWF conf = true)
+    (hcp : confPaths conf = true) (htop : ∀ q ∈ t, q.parent = "" → configured conf q.path = true)
+    (hupd : updateTreeRec t conf = (t', none)) (p : String) (hp : ¬ p = "")
+    (hleaf : ∀ c ∈ conf, c.path = p → c.isParent = false) :
+    ∀ x q, t.find x = some q → q.managed = true → q.parent = p → t'.find x = some q.mark :=
+  updateTreeRec_flip_children t t' conf h hwf hcp htop hupd p hp hleaf
+
 /-- A dynamic queue the configuration does not name is left exactly as it was. -/
 theorem dynamic_queues_untouched (t t' : Tree) (conf : List QC) (h : updateTree t conf = (t', none)) :
     ∀ x q, t.find x = some q → q.managed = false → configured conf x = false → t'.find x = some q :=
@@ -425,5 +449,22 @@ example : configUpdate exClusterS true true "v2" [exLateUpdate true] = (exCluste
 /-- … while the same update with a rule list that is accepted does write the node sorting policy -/
 example : ((configUpdate exClusterS true true "v2" [exLateUpdate false]).1.cluster.get "d").map (fun p => (p.settings.nodeSort, p.settings.weights)) =
     some ("binpacking", [("cpu", "4")]) ∧ (configUpdate exClusterS true true "v2" [exLateUpdate false]).2 = none := by decide
+
+/-- parent -> leaf flip: root -> team (parent) -> team.batch (leaf, app-1), team.adhoc (leaf); the new configuration says
+    root -> team (leaf). Both old children are Draining after the walk as the code performs it (batch keeps its
+    application), root.team is an active leaf; a submission naming the old child is refused, root.team takes it -/
+def exFlipOld : List QC :=
+  [exRootC, { exLeafC "team" 0 with isParent := true },
+   { exLeafC "team" 0 with path := "root.team.batch", parent := "root.team", name := "batch" },
+   { exLeafC "team" 0 with path := "root.team.adhoc", parent := "root.team", name := "adhoc" }]
+def exFlipTree : Tree := (applyAll [] exFlipOld).1.upd "root.team.batch" (fun q => { q with apps := ["app-1"], running := 1 })
+def exFlipConf : List QC := [exRootC, exLeafC "team" 0]
+def exFlipAfter : Tree := (updateTreeRec exFlipTree exFlipConf).1
+example : parentsFirst exFlipTree = true ∧ w0 exFlipTree = true ∧ pathParents exFlipTree = true ∧ confWF exFlipConf = true ∧ confPaths exFlipConf = true := by decide
+example : exFlipAfter.map (fun q => (q.path, q.leaf, q.state, q.apps)) =
+    [("root", false, .active, []), ("root.team", true, .active, []), ("root.team.batch", true, .draining, ["app-1"]),
+     ("root.team.adhoc", true, .draining, [])] := by decide
+example : Place.submit exFlipAfter [exProvided true] { user := exAlice, queue := "root.team.batch".toList, tags := [] } = .rejected .noRule ∧
+    Place.submit exFlipAfter [exProvided true] { user := exAlice, queue := "root.team".toList, tags := [] } = .accepted [Place.sRoot, "team".toList] := by decide
 
 end Yk.C16
